@@ -7,8 +7,9 @@
 -/
 import SeataModel.AT.World
 import SeataModel.Lemmas.Store
+import SeataModel.AT.PairImages
 namespace Seata.Props.C01
-open Seata Seata.DB Seata.AT Seata.Lemmas.Store
+open Seata Seata.DB Seata.AT Seata.Lemmas.Store Seata.AT.PairImages
 
 /-! ### well-formedness (what the database and the SQL layer guarantee) -/
 
@@ -210,5 +211,90 @@ example : ∃ t' b, localPhase1 sc1 ⟨true, true⟩ t1 [(ups, [])] = .ok (t', b
     (undoBranch sc1 ⟨true, true⟩ t' b) = (t1, true) := by
   refine ⟨_, _, rfl, ?_⟩
   decide
+
+/-! ### multi-statement batches over several tables: pairing the images -/
+
+
+theorem mapM_find_tables {α : Type} (after : List (Image α)) :
+    ∀ (before paired : List (Image α)),
+      before.mapM (fun b => after.find? (fun a => a.1 == b.1)) = some paired →
+      paired.map Prod.fst = before.map Prod.fst ∧ ∀ p ∈ paired, p ∈ after := by
+  intro before
+  induction before with
+  | nil => intro paired h; simp at h; subst h; simp
+  | cons b rest ih =>
+    intro paired h
+    simp only [List.mapM_cons, Option.bind_eq_bind] at h
+    cases hf : after.find? (fun a => a.1 == b.1) with
+    | none => simp [hf] at h
+    | some x =>
+      simp only [hf, Option.bind_some] at h
+      cases hr : rest.mapM (fun b => after.find? (fun a => a.1 == b.1)) with
+      | none => simp [hr] at h
+      | some tl =>
+        simp only [hr, Option.bind_some, Option.pure_def, Option.some.injEq] at h
+        subst h
+        obtain ⟨i1, i2⟩ := ih tl hr
+        have hx := List.find?_some hf
+        have hm := List.mem_of_find?_eq_some hf
+        refine ⟨?_, ?_⟩
+        · simp only [List.map_cons, i1]
+          congr 1
+          simpa using hx
+        · intro p hp
+          rcases List.mem_cons.mp hp with rfl | hp
+          · exact hm
+          · exact i2 p hp
+
+/-- whatever the two walks over the map gave: the images that come out are after images, and when they were
+    re-ordered at all they stand table for table where the before images stand -/
+theorem C01_paired_images_are_after_images {α : Type} (before after : List (Image α)) :
+    ∀ p ∈ pairByTable before after, p ∈ after := by
+  intro p hp
+  unfold pairByTable at hp
+  split at hp
+  · exact hp
+  · split at hp
+    · exact hp
+    · split at hp
+      · rename_i paired hm
+        exact (mapM_find_tables after before paired hm).2 p hp
+      · exact hp
+
+/-- when every before image has an after image of its table (and no table occurs twice among the after images),
+    position i of the result is the after image of the table at position i of the before images -/
+theorem C01_paired_by_table {α : Type} (before after : List (Image α))
+    (hlen : before.length = after.length) (hnd : (after.map Prod.fst).Nodup)
+    (hall : ∀ b ∈ before, ∃ a ∈ after, a.1 = b.1) :
+    (pairByTable before after).map Prod.fst = before.map Prod.fst := by
+  unfold pairByTable
+  simp only [hlen, ne_eq, not_true_eq_false, if_false, hnd]
+  cases hm : before.mapM (fun b => after.find? (fun a => a.1 == b.1)) with
+  | some paired => exact (mapM_find_tables after before paired hm).1
+  | none =>
+    exfalso
+    -- some before image found no partner: contradicts hall
+    have : ∃ b ∈ before, after.find? (fun a => a.1 == b.1) = none := by
+      clear hlen hnd hall
+      induction before with
+      | nil => simp at hm
+      | cons b rest ih =>
+        simp only [List.mapM_cons, Option.bind_eq_bind] at hm
+        cases hf : after.find? (fun a => a.1 == b.1) with
+        | none => exact ⟨b, by simp, hf⟩
+        | some x =>
+          simp only [hf, Option.bind_some] at hm
+          cases hr : rest.mapM (fun b => after.find? (fun a => a.1 == b.1)) with
+          | none =>
+            obtain ⟨b', hb', hn⟩ := ih hr
+            exact ⟨b', List.mem_cons_of_mem _ hb', hn⟩
+          | some tl => simp [hr] at hm
+    obtain ⟨b, hb, hn⟩ := this
+    obtain ⟨a, ha, hab⟩ := hall b hb
+    have := List.find?_eq_none.mp hn a ha
+    simp [hab] at this
+
+example : pairByTable [("t1", 1), ("t2", 2)] [("t2", 20), ("t1", 10)] = [("t1", 10), ("t2", 20)] := by decide
+
 
 end Seata.Props.C01
